@@ -368,10 +368,12 @@ impl Gen {
             // hostile profiles: modes with type bits, out of range, zero
             return *rng.pick(&[0u32, 0o40700, 0o100644, 0o120777, 0o170000, 0o7777, 0o10000, u32::MAX, 0o777777]);
         }
-        if rng.chance(3, 4) {
-            *rng.pick(MODES)
+        let m = if rng.chance(3, 4) { *rng.pick(MODES) } else { rng.range(1, 0o777) as u32 };
+        // now and then with a set-id or sticky bit: permission bits are twelve, not nine
+        if rng.chance(1, 10) {
+            m | *rng.pick(&[0o1000u32, 0o2000, 0o4000, 0o6000])
         } else {
-            rng.range(1, 0o777) as u32
+            m
         }
     }
 
@@ -705,6 +707,29 @@ impl Gen {
                         }
                         Op::CopyB { s, d, calls }
                     },
+                }
+            },
+            "chmod_b_deferred" | "chown_b_deferred" => {
+                let t = self.p_target(m, rng, None);
+                let cwd = self.p_target(m, rng, Some(&[K::Dir]));
+                let cur = m.t.cwd.clone();
+                let p = if rng.chance(2, 3) {
+                    if t == cur {
+                        ".".to_string()
+                    } else {
+                        refpath::relative(&t, &cur)
+                    }
+                } else {
+                    t
+                };
+                if kind == "chmod_b_deferred" {
+                    let mut calls = vec![ChmodCall::All(self.mode(rng))];
+                    if rng.chance(1, 3) {
+                        calls.push(ChmodCall::NoRecurse);
+                    }
+                    Op::ChmodBDeferred { p, calls, cwd }
+                } else {
+                    Op::ChownBDeferred { p, calls: vec![ChownCall::Owner(rng.below(4) as u32 + 1, rng.below(4) as u32 + 1)], cwd }
                 }
             },
             "copy_b_deferred" => {
